@@ -1,0 +1,49 @@
+//go:build verif
+
+// Verification hook (/verif, property C19): balloon-type selection.
+// This file is only compiled with the `verif` build tag; it adds no behaviour
+// to the policy. It exposes the unexported chooseBalloonDef of a backend that
+// was set up through the regular Setup()/setConfig() path, so the harness can
+// ask the real policy which balloon type it selects for a real cache container.
+
+package balloons
+
+import (
+	"fmt"
+
+	"github.com/containers/nri-plugins/pkg/resmgr/cache"
+	policyapi "github.com/containers/nri-plugins/pkg/resmgr/policy"
+)
+
+// VerifChooseBalloonDef calls the real chooseBalloonDef of backend b for
+// container c. It returns the name of the chosen balloon type, or the error
+// chooseBalloonDef returned. A nil definition without error is reported as
+// the empty name.
+func VerifChooseBalloonDef(b policyapi.Backend, c cache.Container) (string, error) {
+	p, ok := b.(*balloons)
+	if !ok || p == nil || p.bpoptions == nil {
+		return "", fmt.Errorf("verif: not a configured balloons backend (%T)", b)
+	}
+	def, err := p.chooseBalloonDef(c)
+	if err != nil {
+		return "", err
+	}
+	if def == nil {
+		return "", nil
+	}
+	return def.Name, nil
+}
+
+// VerifEffectiveDefNames returns the names of the balloon types in the order
+// the configured policy matches them (after builtin types have been filled in).
+func VerifEffectiveDefNames(b policyapi.Backend) []string {
+	p, ok := b.(*balloons)
+	if !ok || p == nil || p.bpoptions == nil {
+		return nil
+	}
+	names := make([]string, 0, len(p.bpoptions.BalloonDefs))
+	for _, d := range p.bpoptions.BalloonDefs {
+		names = append(names, d.Name)
+	}
+	return names
+}
